@@ -6,28 +6,49 @@ deleted-and-re-added path gets a new identity.
 """
 from mc.world import D, E, F, L
 
-TOP = ("a", "b", "c", "d", "e", "l")
-CHILD = ("x", "y")
+class Profile:
+    def __init__(self, name, base, top, child, max_depth, ignore=False):
+        self.name = name
+        self.base = base
+        self.top = top
+        self.child = child
+        self.max_depth = max_depth      # components of the deepest allowed path
+        self.ignore = ignore
 
 
-def base_tree(ignore):
-    t = {
-        "a": F(b"id-a", b"a0\n"),
-        "b": F(b"id-b", b"b0\n", True),
-        "d": D(b"id-d"),
-        "d/x": F(b"id-dx", b"x0\n"),
-        "l": L(b"id-l", "a"),
-    }
-    if ignore:
-        t[".bzrignore-upload"] = F(b"id-ign", b"ign\n")
-        t["d/ign"] = F(b"id-dign", b"ignored0\n")
-    return t
+DIRNAMES = ("d", "e", "s")
+LINKNAMES = ("l",)
 
 
-def names(ignore):
-    top = TOP + (("ign",) if ignore else ())
-    child = CHILD + (("ign",) if ignore else ())
-    return top, child
+def profile(name):
+    if name in ("plain", "ignore"):
+        t = {
+            "a": F(b"id-a", b"a0\n"),
+            "b": F(b"id-b", b"b0\n", True),
+            "d": D(b"id-d"),
+            "d/x": F(b"id-dx", b"x0\n"),
+            "l": L(b"id-l", "a"),
+        }
+        top, child = ("a", "b", "c", "d", "e", "l"), ("x", "y")
+        if name == "ignore":
+            t[".bzrignore-upload"] = F(b"id-ign", b"ign\n")
+            t["d/ign"] = F(b"id-dign", b"ignored0\n")
+            top, child = top + ("ign",), child + ("ign",)
+        return Profile(name, t, top, child, 2, ignore=(name == "ignore"))
+    if name == "deep":
+        # nested directories: d/s/y, so that directory removals / renames have to be ordered
+        t = {
+            "a": F(b"id-a", b"a0\n"),
+            "d": D(b"id-d"),
+            "d/s": D(b"id-ds"),
+            "d/s/y": F(b"id-dsy", b"y0\n"),
+        }
+        return Profile(name, t, ("a", "c", "d", "e"), ("s", "y"), 3)
+    raise ValueError(name)
+
+
+def depth(p):
+    return p.count("/") + 1
 
 
 def is_under(p, d):
@@ -38,11 +59,14 @@ def subtree(t, p):
     return [q for q in t if q == p or is_under(q, p)]
 
 
-def free_targets(t, ignore):
-    top, child = names(ignore)
-    out = [n for n in top if n not in t]
-    for d in sorted(q for q in t if t[q].kind == "directory" and "/" not in q):
-        out.extend(d + "/" + c for c in child if d + "/" + c not in t)
+def height(t, p):
+    return max(depth(q) for q in subtree(t, p)) - depth(p)
+
+
+def free_targets(t, prof):
+    out = [n for n in prof.top if n not in t]
+    for d in sorted(q for q in t if t[q].kind == "directory" and depth(q) < prof.max_depth):
+        out.extend(d + "/" + c for c in prof.child if d + "/" + c not in t)
     return out
 
 
@@ -59,49 +83,50 @@ def move(t, p, q):
     return n
 
 
-def successors(t, tag, ignore, symlinks=True):
+def successors(t, tag, prof, symlinks=True):
     """[(op description, new tree)] - the edit alphabet applicable to t."""
     out = []
     tg = tag.encode()
     entries = sorted(p for p in t if p != ".bzrignore-upload")
-    free = free_targets(t, ignore)
-    top, child = names(ignore)
+    free = free_targets(t, prof)
+    md = prof.max_depth
     # additions
     for q in free:
         base = q.rsplit("/", 1)[-1]
-        if base in ("d", "e"):
-            if "/" not in q:
+        if base in DIRNAMES:
+            if depth(q) < md:
                 out.append(("add-dir %s" % q, dict(t, **{q: D(b"id-%s-%s" % (q.encode(), tg))})))
-        elif base == "l":
+        elif base in LINKNAMES:
             if symlinks:
                 out.append(("add-link %s" % q, dict(t, **{q: L(b"id-%s-%s" % (q.encode(), tg), "a")})))
         else:
             out.append(("add-file %s" % q, dict(t, **{q: F(b"id-%s-%s" % (q.encode(), tg), b"new %s\n" % tg)})))
     for p in entries:
         e = t[p]
+        if e.kind == "symlink" and not symlinks:
+            continue
         # content / exec / target changes
         if e.kind == "file":
             out.append(("modify %s" % p, dict(t, **{p: E(e.fid, "file", e.content + b"mod %s\n" % tg, e.exec)})))
             out.append(("chmod %s" % p, dict(t, **{p: E(e.fid, "file", e.content, not e.exec)})))
-        elif e.kind == "symlink" and symlinks:
+        elif e.kind == "symlink":
             out.append(("retarget %s" % p, dict(t, **{p: L(e.fid, e.content + "x")})))
         # delete (recursively)
         gone = set(subtree(t, p))
         out.append(("delete %s" % p, {k: v for k, v in t.items() if k not in gone}))
-        # renames
+        # renames / moves
+        h = height(t, p)
         for q in free:
-            if is_under(q, p):
+            if is_under(q, p) or depth(q) + h > md:
                 continue
-            if "/" in q and e.kind == "directory" and "/" not in p and q.split("/")[0] == p:
-                continue
-            if "/" in q and e.kind == "directory":
-                continue            # keep directories at the top level (depth <= 2)
+            if e.kind == "directory" and h == 0 and depth(q) >= md:
+                continue            # a directory lives where it could have children
             out.append(("rename %s -> %s" % (p, q), move(t, p, q)))
-        # kind changes (same file id, same path)
+        # kind changes (same file id, same path; the content of a directory goes away)
         for kind in ("file", "directory", "symlink"):
-            if kind == e.kind or (kind == "symlink" and not symlinks) or (e.kind == "symlink" and not symlinks):
+            if kind == e.kind or (kind == "symlink" and not symlinks):
                 continue
-            if kind == "directory" and "/" in p:
+            if kind == "directory" and depth(p) >= md:
                 continue
             n = {k: v for k, v in t.items() if not is_under(k, p)}
             if kind == "file":
@@ -118,8 +143,9 @@ def successors(t, tag, ignore, symlinks=True):
                 continue
             if not symlinks and "symlink" in (t[p].kind, t[q].kind):
                 continue
-            # no directory may end up below the top level
-            if (t[p].kind == "directory" and "/" in q) or (t[q].kind == "directory" and "/" in p):
+            if depth(q) + height(t, p) > md or depth(p) + height(t, q) > md:
+                continue
+            if (t[p].kind == "directory" and depth(q) >= md) or (t[q].kind == "directory" and depth(p) >= md):
                 continue
             tmp = "\0tmp"
             n = move(move(move(t, p, tmp), q, p), tmp, q)
